@@ -113,6 +113,18 @@ func scaleProject(shape string, n int) *Project {
 		for i := 0; i < n; i++ {
 			fmt.Fprintf(&sb, "    line %d of the text\n", i)
 		}
+	case "types-diamond-doubling":
+		// two user types per level, each referring to both types of the next level: 2n types, 2^n paths
+		for i := 0; i < n; i++ {
+			for _, ab := range []string{"a", "b"} {
+				if i == n-1 {
+					fmt.Fprintf(&sb, "TYPE @d%d%s\n  1\n", i, ab)
+				} else {
+					fmt.Fprintf(&sb, "TYPE @d%d%s\n  @d%da | @d%db\n", i, ab, i+1, i+1)
+				}
+			}
+		}
+		sb.WriteString("GET /p\n  200 @d0a\n")
 	case "types-and-bodies":
 		// n user types AND n inline bodies (none of which uses any of the types)
 		for i := 0; i < n; i++ {
@@ -253,7 +265,7 @@ func scaleProject(shape string, n int) *Project {
 
 var scaleShapes = []string{"tags", "methods", "methods-with-bodies", "types-independent", "types-chain", "includes-flat", "include-same-file", "pastes", "macros", "description-text", "one-big-body", "types-star", "allof-chain", "macro-chain", "responses", "rpc-methods", "tags-on-methods", "methods-using-one-type", "macro-doubling", "include-doubling",
 	"path-params", "path-segments", "one-tags-directive", "enum-values", "array-items", "or-types", "allof-list", "servers", "query-props", "header-props", "long-annotation", "blank-lines", "comment-lines", "urls-with-methods", "similar-paths",
-	"types-and-bodies", "enums-and-types"}
+	"types-and-bodies", "enums-and-types", "types-diamond-doubling"}
 
 // scaleSizes: n and 4n per shape (the doubling shapes are exponential in the real code: 4 and 16
 // are enough to show it and small enough to finish).
